@@ -84,6 +84,7 @@ func (s *Sched) SetStrategy(st Strategy) { s.strat = st }
 
 // Yield is the hook body: park the calling actor until the scheduler releases it.
 func Yield(site string, who int) {
+	bindExplicit(who)
 	raceDisable()
 	s := cur.Load()
 	if s != nil {
